@@ -770,7 +770,10 @@ func ruleSubjectBroadcastLocked() check.Rule {
 						if _, _, isEmit := emitKindName(name); !isEmit {
 							return true
 						}
-						sel := ast.Unparen(call.Fun).(*ast.SelectorExpr)
+						sel := callSelector(info, call)
+						if sel == nil {
+							return true
+						}
 						// calls on the receiver itself are the context-less entry points
 						if id, ok := ast.Unparen(sel.X).(*ast.Ident); ok && objOf(info, id) == rv {
 							return true
